@@ -7,7 +7,7 @@ from rules import common, c10
 
 CLAIMED = True
 TECHNIQUE = "static analysis over type-checked MIR: panic/abort-site inventory over the call-graph cone of PatternEncoder::new/encode/deserialize (overflow/bounds asserts, may-panic external contracts, fallible Display into write_fmt), discharged by dominating-guard must-facts or a construct-keyed allow-list; dominance of strftime validation over every Time chunk construction; checked width accumulation; error-marker template"
-LEVEL_TEXT = """Static, all-paths decision that no un-discharged panic site is reachable from PatternEncoder::new, <PatternEncoder as Encode>::encode or the pattern deserializer (cone over resolved callees incl. closures and callbacks through external generics; cut at dyn Encode and at writers outside the pattern module): (P1) every MIR overflow/bounds/div assert and every call whose external contract is 'may panic' is discharged by a dominating guard (vector length / Option emptiness / non-zero must-facts), or by an allow-list entry keyed by function+construct+operand provenance with a stated reason; (P2) every construction of the Time chunk is dominated by a strftime validation of the same format string whose failure edge yields an error chunk (chrono's Display fails on bad directives and write_fmt would panic); (P3) the decimal width accumulator uses checked/saturating arithmetic only, with the overflow edge surfacing an error piece (dev and release configurations); (P4) the error arm of Chunk::encode writes '{ERROR: <msg>}' and every Piece::Error becomes Chunk::Error. Stack depth under nested patterns (parser/From recursion) is listed, not decided. (P7) in Parser::args every group parsed is pushed before the next is looked for or the list returned; (P8) nothing in the module's cone is sized by a parsed width. (P1, cont.) a run-time width or precision argument of a format string (`{:1$}`) is a panic site (core::fmt takes at most u16::MAX)."""
+LEVEL_TEXT = """Static, all-paths decision that no un-discharged panic site is reachable from PatternEncoder::new, <PatternEncoder as Encode>::encode or the pattern deserializer (cone over resolved callees incl. closures and callbacks through external generics; cut at dyn Encode and at writers outside the pattern module): (P1) every MIR overflow/bounds/div assert and every call whose external contract is 'may panic' is discharged by a dominating guard (vector length / Option emptiness / non-zero must-facts), or by an allow-list entry keyed by function+construct+operand provenance with a stated reason; (P2) every construction of the Time chunk is dominated by a strftime validation of the same format string whose failure edge yields an error chunk (chrono's Display fails on bad directives and write_fmt would panic); (P3) the decimal width accumulator uses checked/saturating arithmetic only, with the overflow edge surfacing an error piece (dev and release configurations); (P4) the error arm of Chunk::encode writes '{ERROR: <msg>}' and every Piece::Error becomes Chunk::Error. Stack depth under nested patterns (parser/From recursion) is listed, not decided. (P7) in Parser::args every group parsed is pushed before the next is looked for or the list returned; (P8) nothing in the module's cone is sized by a parsed width. (P1, cont.) a run-time width or precision argument of a format string (`{:1$}`) is a panic site (core::fmt takes at most u16::MAX). (P9) each group formatter is built under `args.len() == 1` (or pop() is Some and nothing is left)."""
 LEVEL_NOTE = "Trusted: rustc MIR/callee resolution; the external-contract table (an external callee not listed is assumed not to panic); io::Write contract (n <= buf.len()) for the inner writer; chrono's StrftimeItems reports every invalid directive as Item::Error. Conservative: a new un-discharged site in the cone is reported even if it cannot fail for reasons the dischargers do not see."
 EXPLANATION = """Decided: P1 panic-site inventory over the cone (all sites discharged), P2 validated strftime formats, P3 checked width accumulation, P4 error rendering. Undecided: stack depth for deeply nested patterns (recursion noted), behaviour of the underlying writer (C18 owns the console/ANSI writers)."""
 DECIDED = ["P1 panic inventory", "P2 strftime validated before use", "P3 checked width accumulation", "P4 {ERROR: ..} rendering", "P5 the parser's cursor moves before every piece it returns"]
@@ -89,8 +89,47 @@ def rule_no_width_sized_allocation(ctx, p, cfg, rid="P8"):
                       bad[0][1].callee if bad else "", bad[0][0].path if bad else ""))
 
 
+GROUPS = ("Highlight", "Debug", "Release", "Align")
+
+
+def rule_group_arity(ctx, p, cfg, rid="P9"):
+    """A group formatter takes exactly one `(..)` group: the chunk is built only where the number of groups written was found
+    to be one (`args.len() == 1`, in either polarity) - "there is at least one" (`pop()` gave Some) lets surplus groups, and the
+    errors inside them, pass in silence."""
+    with ctx.rule(rid, "a group formatter is built from exactly one group", cfg) as r:
+        f = p.fn(FROM_PIECE)
+        n = 0
+        for (g, b, i, rv) in p.aggregates("encode::pattern::FormattedChunk"):
+            if g.path != f.path or rv.get("variant") not in GROUPS:
+                continue
+            n += 1
+            pc = q.path_condition(f, b)
+            if pc is None:
+                raise ShapeUnrecognised("the condition guarding a group chunk is a disjunction")
+            ok = False
+            for c in pc:
+                neg = False
+                d = c
+                while isinstance(d, tuple) and d and d[0] == "un" and d[1] == "Not":
+                    neg = not neg
+                    d = d[2]
+                nf = cmp_nf(d, not neg)
+                if nf and nf[0] == "Eq" and any(deep_strip(x) == ("const", "int", 1) for x in nf[1:]) and \
+                        any(y[0] == "call" and y[1].rsplit("::", 1)[-1] == "len" and any(z[0] == "field" and z[2] == "args" for z in walk(y)) for x in nf[1:] for y in walk(x)):
+                    ok = True
+            if not ok:
+                # the same count taken apart: the last group was there (`pop()` gave Some) and nothing was left (`is_empty()`)
+                popped = any(c[0] == "inset" and c[2] == ("Some",) and any(y[0] == "call" and y[1].rsplit("::", 1)[-1] == "pop" for y in walk(c[1])) for c in pc)
+                emptied = any(deep_strip(c)[0] == "call" and deep_strip(c)[1].rsplit("::", 1)[-1] == "is_empty" for c in pc if c[0] != "inset")
+                ok = popped and emptied
+            r.require(ok, "exactly-one-group:%s#%d" % (rv.get("variant"), n), fn=f, detail="%s is built under args.len() == 1" % rv.get("variant"),
+                      fail_detail="FormattedChunk::%s is built without the test that exactly one group was written: `{h(a)(b)}` is accepted, one group is used and the other dropped" % rv.get("variant"))
+        r.floor("group-constructions", n, 4)
+
+
 def run_cfg(ctx, p, cfg):
     rule_args_kept(ctx, p, cfg, "P7")
+    rule_group_arity(ctx, p, cfg, "P9")
     rule_no_width_sized_allocation(ctx, p, cfg, "P8")
     satisfied = set()
     with ctx.rule("P2", "format strings are validated before use", cfg) as r:
